@@ -125,6 +125,15 @@ def check_shapes(ctx, f, g, lp, pv):
     cnt = None
     if isinstance(o.iter, ast.Call) and norm.is_name(o.iter.func, "range") and len(o.iter.args) == 1 and isinstance(o.iter.args[0], ast.Name):
         cnt = o.iter.args[0].id
+    # the same chain with its first link taken out of the loop:  root = p.new_operator(); <root's segment>; for _ in range(n - 1): op = p.new_operator([prev]) ...
+    pre_ops = [c for s in q.orelse for c in ast.walk(s) if isinstance(c, ast.Call) and norm.call_name(c) == "new_operator" and not any(c is x for x in ast.walk(o))]
+    peeled = None
+    if len(pre_ops) == 1 and isinstance(o.iter, ast.Call) and norm.is_name(o.iter.func, "range") and len(o.iter.args) == 1 and isinstance(o.iter.args[0], ast.BinOp) \
+            and isinstance(o.iter.args[0].op, ast.Sub) and isinstance(o.iter.args[0].left, ast.Name) and isinstance(o.iter.args[0].right, ast.Constant) and o.iter.args[0].right.value == 1 \
+            and isinstance(parent(pre_ops[0]), ast.Assign) and isinstance(parent(pre_ops[0]).targets[0], ast.Name) and g.dominates(parent(pre_ops[0]), o) \
+            and enclosing_for(pre_ops[0], f.node) is lp and any(parent(pre_ops[0]) is s_ for s_ in poolstmt_block(o)):
+        peeled = pre_ops[0]
+        cnt = o.iter.args[0].left.id
     ge1 = cnt is not None and g.holds_on_entry(o, ("cmp", "<=", "1", cnt))
     ctx.ob(3, "K9", "the operator loop runs at least once: the drawn operator count is >= 1 on every path into the loop (floored at 1)", ge1, f, o, construct="num ops >= 1",
            detail=f"loop `{stmt_text(o)}`; goal 1 <= {cnt} on entry: {ge1}")
@@ -156,7 +165,20 @@ def check_shapes(ctx, f, g, lp, pv):
     okchain = False
     d = f"{len(ops)} new_operator site(s)"
     prevv = None
-    if len(ops) == 1 and norm.U(ops[0].func.value) == pv and len(ops[0].args) == 1:
+    if peeled is not None and len(ops) == 1 and norm.U(ops[0].func.value) == pv and norm.U(peeled.func.value) == pv and len(ops[0].args) == 1 and not ops[0].keywords \
+            and isinstance(ops[0].args[0], ast.List) and len(ops[0].args[0].elts) == 1 and isinstance(ops[0].args[0].elts[0], ast.Name):
+        prevv = ops[0].args[0].elts[0].id
+        rootv = parent(peeled).targets[0].id
+        opn = parent(ops[0]).targets[0].id if isinstance(parent(ops[0]), ast.Assign) and isinstance(parent(ops[0]).targets[0], ast.Name) else None
+        noparent = (not peeled.args or (len(peeled.args) == 1 and isinstance(peeled.args[0], ast.Constant) and peeled.args[0].value is None)) and not peeled.keywords
+        # prev starts as the root: it *is* the root's name, or is bound to it once before the loop
+        binds = [n for n in ast.walk(lp) if isinstance(n, ast.Assign) and norm.is_name(n.targets[0], prevv) and not any(n is x for x in ast.walk(o))]
+        okinit = (rootv == prevv and len(binds) == 1) or (len(binds) == 1 and norm.is_name(binds[0].value, rootv) and g.dominates(parent(peeled), binds[0]) and g.dominates(binds[0], o))
+        upd = [n for n in o.body if isinstance(n, ast.Assign) and norm.is_name(n.targets[0], prevv)]
+        okupd = len(upd) == 1 and opn and norm.is_name(upd[0].value, opn) and upd[0] is o.body[-1]
+        okchain = bool(noparent and okinit and okupd)
+        d = f"first link outside the loop: {norm.U(parent(peeled))} (no parent: {noparent}); loop: parents = [{prevv}], {prevv} starts as the root: {okinit}, updated as the last statement of every iteration: {okupd}"
+    elif len(ops) == 1 and norm.U(ops[0].func.value) == pv and len(ops[0].args) == 1:
         a = ops[0].args[0]
         # [prev] if prev else None    /   [prev] if prev is not None else None
         if isinstance(a, ast.IfExp) and isinstance(a.body, ast.List) and len(a.body.elts) == 1 and isinstance(a.body.elts[0], ast.Name) and isinstance(a.orelse, ast.Constant) and a.orelse.value is None:
@@ -175,6 +197,17 @@ def check_shapes(ctx, f, g, lp, pv):
            construct="chain construction", detail=d)
     segs = [c for c in ast.walk(o) if isinstance(c, ast.Call) and norm.call_name(c) == "add_segment"]
     go = cfg_of(f)
+    root_segs = []
+    if peeled is not None:
+        rootv = parent(peeled).targets[0].id
+        blk_ = poolstmt_block(o)
+        i0 = [k_ for k_, s_ in enumerate(blk_) if s_ is parent(peeled)][0]
+        i1 = [k_ for k_, s_ in enumerate(blk_) if s_ is o][0]
+        root_segs = [c for s_ in blk_[i0 + 1:i1] for c in ast.walk(s_) if isinstance(c, ast.Call) and norm.call_name(c) == "add_segment"]
+        okroot = len(root_segs) == 1 and norm.is_name(root_segs[0].func.value, rootv) and any(poolstmt(root_segs[0]) is s_ for s_ in blk_[i0 + 1:i1]) \
+            and not any(isinstance(x, ast.Call) and norm.call_name(x) == "add_segment" for s_ in blk_[i1 + 1:] for x in ast.walk(s_))
+        ctx.ob(3, "K3", "the first operator (created before the loop) gets exactly one segment", okroot, f, root_segs[0] if root_segs else parent(peeled), construct="one segment for the root",
+               detail=f"add_segment sites between the root's creation and the loop: {len(root_segs)}")
     hid = go.node_of(o).id
     one = go.path_avoiding(hid, {hid, go.exit.id}, {go.node_of(c).id for c in segs}, edge_ok=lambda a, b, lab: not (a == hid and lab == "done")) is None
     two = None
@@ -193,10 +226,20 @@ def check_shapes(ctx, f, g, lp, pv):
                 producers += [(c, d_.value, d_) for d_ in ds]
                 continue
         producers.append((c, arg, c))
+    if peeled is not None:
+        for c in root_segs:
+            arg = c.args[0] if c.args else None
+            if isinstance(arg, ast.Name):
+                ds = [d_ for d_ in sched.reaching_defs(f, go, c, arg.id) if isinstance(d_, ast.Assign)]
+                arg = ds[0].value if len(ds) == 1 else arg
+            ok = arg is not None and norm.U(arg) == "self.generate_segment_from_val(-2)"
+            ctx.ob(4, "K6", "the first operator of a pipeline is the I/O-heavy one (prototype of val < -1)", ok, f, c, detail=f"segment: {norm.U(arg) if arg is not None else None}")
     for c, arg, at in producers:
         fs = go.facts_at(at)
         first = prevv is not None and norm.entails(fs, ("cmp", "is", prevv, "None"))
         later = prevv is not None and (norm.entails(fs, ("cmp", "isnot", prevv, "None")) or norm.entails(fs, ("truth", prevv, True)))
+        if peeled is not None:
+            first, later = False, True          # every operator made in the loop comes after the root
         if not go.reachable(go.node_of(at).id):
             ctx.ob(4, "K10", "every segment-producing call site in the operator loop is live", False, f, at, construct=f"dead call site: {norm.U(arg)}",
                    detail="this segment-producing call can never execute (its guard contradicts what is known there) — the parameter it depends on has no effect")
@@ -210,6 +253,11 @@ def check_shapes(ctx, f, g, lp, pv):
         else:
             ctx.ob(4, "K2", "which prototype an operator gets is decided by whether it is the pipeline's first operator", False, f, at, construct="prototype choice guard",
                    detail=f"facts: {sorted(norm.show(x) for x in fs)} (required: a test of `{prevv} is None`)")
+
+
+def poolstmt_block(st):
+    from . import pool as _pool
+    return _pool.block_of(st)
 
 
 def poolstmt(n):
